@@ -574,3 +574,7 @@ func specECH() []string {
 //@   ensures[C16] program-text-untouched: c.globalCode == old(c.globalCode) && c.functionsCode == old(c.functionsCode) && c.startCode == old(c.startCode)
 
 var _ = strings.TrimSpace
+
+// The script is exactly the collected lines joined by line breaks -- nothing is rewritten on the way out.
+//@ func (*converter).Dump
+//@   ensures[C05,C08,C16] the-script-is-the-collected-lines-joined-by-line-breaks: err == nil && calls(strings_Join) == 1 && result0 == res(strings_Join, 0, 0) && arg(strings_Join, 0, 1) == "\r\n"
